@@ -36,13 +36,19 @@ def _run_case(job):
     for k, v in case.opts.items():
         if k in ('map_order_all', 'max_paths', 'big_len_set'):
             setattr(ex, k, v)
+    if os.environ.get('VERIF_NO_SOLVER_DIFF') != '1':
+        ex.diff_budget = 3
+        ex.diff_dir = os.path.join(driver.CACHE, 'smt', re.sub(r'[^A-Za-z0-9_.-]', '_', case.name))
+        os.makedirs(ex.diff_dir, exist_ok=True)
+        for old in os.listdir(ex.diff_dir):
+            os.remove(os.path.join(ex.diff_dir, old))
     t0 = time.time()
     recs = ex.explore(case.full(), args_fn=(lambda e: list(case.args)), run_init=case.opts.get('run_init', case.pkg == 'crypto'))
     st = collections.Counter(r['status'] for r in recs)
     out = {'case': case.name, 'fn': case.fn, 'pkg': case.pkg, 'args': [a if isinstance(a, int) else str(a) for a in case.args],
            'paths': len(recs), 'status': dict(st), 'stats': ex.stats.asdict(),
            'violations': [], 'unsupported': [], 'inconclusive': [], 'reached': 0, 'asserts': 0,
-           'called': sorted(ex.called), 'sample_path': None, 'symbolic_only': bool(case.opts.get('symbolic_only'))}
+           'called': sorted(ex.called), 'sample_path': None, 'diff_files': list(ex.diff_files), 'symbolic_only': bool(case.opts.get('symbolic_only'))}
     labels = collections.Counter()
     for r in recs:
         ev = r.get('events') or []
@@ -66,6 +72,43 @@ def _run_case(job):
             out['sample_path'] = {'decisions': len(r['trace']), 'events': [list(e) for e in ev[:6]]}
     out['labels'] = dict(labels)
     out['solver_s'] = ex.stats.solver_s
+    return out
+
+def _run_other_solver(job):
+    path, solver = job
+    import subprocess
+    cmd = ['/usr/bin/z3', '-T:20', path] if solver == 'z3-4.8.12' else ['cvc5', '--tlimit=20000', path]
+    try:
+        r = subprocess.run(cmd, stdout=subprocess.PIPE, stderr=subprocess.STDOUT, text=True, timeout=40)
+        out = r.stdout
+    except subprocess.TimeoutExpired:
+        return (path, solver, 'timeout')
+    lines = [l.strip() for l in out.strip().split('\n') if l.strip()]
+    if any(l.startswith('(error') for l in lines):
+        return (path, solver, 'error')       # (an old z3 may drop an assertion it cannot parse and still answer)
+    verdicts = [l for l in lines if l in ('sat', 'unsat', 'unknown', 'timeout')]
+    return (path, solver, verdicts[-1] if verdicts else 'error')
+
+def solver_diff(results, seed, limit):
+    """re-run a seed-chosen sample of the discharged assertion queries (z3py 5.1.0 said unsat) through
+    /usr/bin/z3 4.8.12 and cvc5 1.0.3; 'sat' from another solver is a disagreement (reported as inconclusive);
+    parse errors / unsupported constructs / timeouts are counted, not treated as agreement"""
+    import random as _random
+    files = []
+    for r in results:
+        files += r.get('diff_files', []) if 'error' not in r else []
+    _random.Random(seed + 99).shuffle(files)
+    files = files[:limit]
+    out = {'queries_written': len(files), 'z3-4.8.12': {'unsat': 0, 'sat': 0, 'unknown': 0, 'timeout': 0, 'error': 0},
+           'cvc5-1.0.3': {'unsat': 0, 'sat': 0, 'unknown': 0, 'timeout': 0, 'error': 0}, 'disagree': []}
+    if not files:
+        return out
+    jobs = [(f, s) for f in files for s in ('z3-4.8.12', 'cvc5-1.0.3')]
+    res = driver.run_cases_simple(_run_other_solver, jobs)
+    for (path, solver, verdict) in res:
+        out[solver][verdict if verdict in out[solver] else 'error'] += 1
+        if verdict == 'sat':
+            out['disagree'].append('%s answers sat on %s (z3 5.1.0: unsat)' % (solver, path))
     return out
 
 def load_known():
@@ -94,6 +137,7 @@ def run_check(prop, cases, tier, seed, level='model_checking', functions=(), bou
     if pre_results:
         results = list(pre_results) + results
     post_broken = post_results([r for r in results if 'error' not in r]) if post_results else []
+    diff = solver_diff(results, seed, 60 if tier == 'quick' else 400)
     if os.environ.get('VERIF_TIMES'):
         for r in sorted(results, key=lambda r: -r.get('wall_s', 0))[:10]:
             print('  time %.1fs %s paths=%s' % (r.get('wall_s', 0), r.get('case'), r.get('paths')))
@@ -172,6 +216,8 @@ def run_check(prop, cases, tier, seed, level='model_checking', functions=(), bou
         print('  violation class: %dx %s: %s' % (cnt, kind, msg))
     for l in known_lines:
         print(l)
+    for d in diff['disagree']:
+        inconc.append('solver cross-check: %s' % d)
     for l in inconc:
         print('INCONCLUSIVE property=%s %s' % (prop, l))
     for l in broken:
@@ -218,6 +264,7 @@ def run_check(prop, cases, tier, seed, level='model_checking', functions=(), bou
         'known_findings_matched': sorted(seen_known),
         'violations_not_replayed_beyond_cap': unreplayed,
         'witness_paths_replayed_natively_ok': wit_ok,
+        'solver_cross_check': diff,
         'encoding_source': os.path.basename(ssa) + ' (regenerated from /repo working tree on this run)',
     }
     if extra_cov:
